@@ -330,9 +330,10 @@ Qed.
 Theorem wfn_stage_err p v k : wfn_stage p v = Err k -> k = Validation.
 Proof.
   unfold wfn_stage. destruct (wfn_pre p v) as [o|k0] eqn:E; simpl.
-  - destruct o as [w|]; [|discriminate]. unfold wfn_validate.
-    destruct (negb _); simpl; [intro H; inversion H; reflexivity|].
-    destruct (fold_left _ _ _) as [vals bad]. destruct bad; simpl; [intro H; inversion H; reflexivity|discriminate].
+  - destruct o as [w|]; [|discriminate].
+    destruct (wfn_validate w) as [w'|k1] eqn:Ev; simpl; [discriminate|]. intro H; inversion H; subst. clear H.
+    revert Ev. unfold wfn_validate. destruct (negb _); [intro H; inversion H; reflexivity|].
+    destruct (fold_left _ _ _) as [vals bad]. destruct bad; intro H; inversion H; reflexivity.
   - intro H; inversion H; subst. apply (wfn_pre_err _ _ _ E).
 Qed.
 
